@@ -1,6 +1,6 @@
 ------------------------------- MODULE MCFilter -------------------------------
 EXTENDS FilterMC
 A == <<97>>  AB == <<97, 98>>  B == <<98>>
-MCKeys == {<<>>, A, AB, <<97, 98, 99>>, B, <<98, 97>>, CkptPrefixBytes, CkptPrefixBytes \o <<45, 120>>, <<123, 97, 98, 125, 99>>}
+MCKeys == {<<>>, A, AB, <<97, 98, 99>>, B, <<98, 97>>, CkptPrefixBytes, CkptPrefixBytes \o <<45, 120>>, <<123, 97, 98, 125, 99>>, <<125, 120, 123, 97, 125>>}   \* ... "{ab}c", "}x{a}" (a closing brace before the tag: same slot as "a")
 MCPrefixes == {A, AB, B}
 =============================================================================
